@@ -456,6 +456,25 @@ theorem find?_field_mem {p : Field → Bool} {bf : Field} :
       obtain ⟨h1, h2⟩ := find?_field_mem h
       exact ⟨List.mem_cons_of_mem _ h1, h2⟩
 
+theorem field_eq_of_name_eq {f g : Field} :
+    ∀ {l : List Field}, (l.map (·.name)).Nodup → f ∈ l → g ∈ l → f.name = g.name → f = g
+  | [], _, hf, _, _ => by simp at hf
+  | x :: rest, nd, hf, hg, e => by
+    simp only [List.map_cons, List.nodup_cons] at nd
+    cases List.mem_cons.1 hf with
+    | inl ef =>
+      cases List.mem_cons.1 hg with
+      | inl eg => rw [ef, eg]
+      | inr hg' =>
+        exfalso; apply nd.1
+        rw [← ef, e]; exact List.mem_map_of_mem hg'
+    | inr hf' =>
+      cases List.mem_cons.1 hg with
+      | inl eg =>
+        exfalso; apply nd.1
+        rw [← eg, ← e]; exact List.mem_map_of_mem hf'
+      | inr hg' => exact field_eq_of_name_eq nd.2 hf' hg' e
+
 theorem goDecode_wt (ss : Schemas) (hs : schemasOk ss = true) :
     ∀ (fuel : Nat) (t : Ty) (j : Json) (v : GoVal), posOk ss t = true →
       goDecode fuel ss t j = .ok v → wt (fuel + 1) ss t v = true
@@ -587,8 +606,8 @@ theorem goDecode_wt (ss : Schemas) (hs : schemasOk ss = true) :
                         simp only [Bool.and_eq_true, decide_eq_true_eq]
                         refine ⟨wtBranches_map _ fields fun f hf => ?_, liveBranches_select _ _ fields ((nodupKeys_iff _).1 hnd)⟩
                         by_cases hfn : (f.name == bf.name) = true
-                        · have : f = bf := by
-                            sorry
+                        · have : f = bf :=
+                            field_eq_of_name_eq ((nodupKeys_iff _).1 hnd) hf hmem (by simpa using hfn)
                           subst this
                           simp only [hfn, if_true]; rw [hbt]; exact hptr
                         · simp only [hfn, if_false]; exact nilok f hf
